@@ -2,7 +2,6 @@ package props
 
 import (
 	"math/big"
-	"strings"
 
 	"golang.org/x/tools/go/ssa"
 
@@ -31,6 +30,7 @@ func runC12(c *Ctx) {
 	r.Rule("C12.toInt", "toInt: digit(t) = 2 for −1, else t; value = ((t[242]·9 + t[241]·3 + t[240]) then for i = 5..0: ·3^40 + Horner_{j=39..0}(digit(t[40i+j])) (+1 when i==0)); uint64Radix = 3^40; tritsPerUint64 = 40")
 	r.Rule("C12.thresholds", "lx = uint64(len+8)·t; s = first index in 0..40 with 3^index >= lx else 41; target = Quo(maxHash, t·(len+8) + 1); maxHash = 3^243; Score = Quo(maxHash, toInt(hash)) / len(msg), saturating at MaxUint64; Mine returns (0,nil) for t == 0")
 	r.Rule("C12.return", "the worker returns batch base + lane index when the lane test yields a lane < 64; lane i carries nonce base+i at trit offset EncodedLen(32)")
+	r.Rule("C12.result-flow", "a successful Mine returns a value received from a channel made by this call; the channel is only closed/received by Mine and sent to by Mine's goroutines; every sent value is the nonce returned by a call of the worker routine on this call's digest variable (assigned once from blake2b.Sum256(data))")
 	r.Rule("C12.no-shared-scratch", "functions reachable from Score and from the workers do not write package-level variables nor mutate objects held in them")
 	r.Assume("math/big (Quo, Cmp, Mul, Add, SetUint64), math/bits.TrailingZeros/Len; iota.go bct.Curl / curl / b1t6 as documented")
 	r.NotDec("the inequalities themselves: 3^s >= lx ⇒ s trailing zeros suffice; h <= floor(3^243/(lx+1)) ⇒ difficulty > lx")
@@ -386,38 +386,7 @@ func c12Worker(c *Ctx) {
 		}
 	}
 	r.Check(sCell && tCell, "C12.thresholds.mine-wiring", c.P.Pos(mine.Pos()), "Mine computes s = sufficientTrailingZeros(data, t) and target = targetHash(data, t) from its own arguments")
+	mineResultFlow(c, "C12", mine, fn, "call<golang.org/x/crypto/blake2b.Sum256>(p2)")
 	// no shared scratch
-	bad := 0
-	roots := []*ssa.Function{fn, c.P.Func("pkg/pow/v2", "Score")}
-	for _, root := range roots {
-		if root == nil {
-			continue
-		}
-		for _, rf := range reachableRepoFuncs(root) {
-			fb := ana.NewBuilder(c.P, rf)
-			for _, blk := range rf.Blocks {
-				for _, ins := range blk.Instrs {
-					switch x := ins.(type) {
-					case *ssa.Store:
-						if g, ok := x.Addr.(*ssa.Global); ok && !strings.HasPrefix(rf.Name(), "init") {
-							bad++
-							r.Viol("C12.no-shared-scratch", c.ipos(x), "%s writes package variable %s", rf.Name(), g.Name())
-						}
-					case ssa.CallInstruction:
-						for i, a := range x.Common().Args {
-							if ld, ok := fb.Root(a).(*ssa.UnOp); ok {
-								if g, isG := ld.X.(*ssa.Global); isG && fb.MayMutateOperand(x.Common(), i) {
-									bad++
-									r.Viol("C12.no-shared-scratch", c.ipos(x), "%s mutates the object held in package variable %s via %s; concurrent workers would corrupt each other's hash value", rf.Name(), g.Name(), ana.CalleeName(x.Common()))
-								}
-							}
-						}
-					}
-				}
-			}
-		}
-	}
-	if bad == 0 {
-		r.OK("C12.no-shared-scratch", c.P.Pos(fn.Pos()), "no function reachable from the worker or Score writes package-level state")
-	}
+	pureScan(c, "C12.no-shared-scratch", fn, c.P.Func("pkg/pow/v2", "Score"))
 }
